@@ -84,6 +84,8 @@ Lemma pool_put_stack c ls : stack (pool_put c ls) = stack c.
 Proof. unfold pool_put. destruct (Nat.ltb _ _); reflexivity. Qed.
 Lemma pool_put_mem c ls : mem (pool_put c ls) = mem c.
 Proof. unfold pool_put. destruct (Nat.ltb _ _); reflexivity. Qed.
+Lemma pool_put_stor c ls : stor (pool_put c ls) = stor c.
+Proof. unfold pool_put. destruct (Nat.ltb _ _); reflexivity. Qed.
 Lemma pool_put_next c ls : next (pool_put c ls) = next c.
 Proof. unfold pool_put. destruct (Nat.ltb _ _); reflexivity. Qed.
 Lemma svals_pool_put c ls : svals (pool_put c ls) = svals c.
@@ -101,18 +103,18 @@ Qed.
 (* WF of a configuration that ends with a put: it is enough that the cells put
    back are distinct from everything else; whether the pool accepted them or
    was full does not matter. *)
-Lemma WF_pool_put gv h nx st pl m ls :
+Lemma WF_pool_put gv h nx st pl m sr ls :
   NoDup (st ++ ls ++ pl) ->
   Forall (allocated gv nx) (st ++ ls ++ pl) ->
   Forall (fun l => inrange (h l)) st ->
   globals_ok gv h -> (N.of_nat (length gv) <= nx)%N -> bytes_ok m ->
-  WF gv (pool_put (mkCfg h nx st pl m) ls).
+  WF gv (pool_put (mkCfg h nx st pl m sr) ls).
 Proof.
   intros Hnd Hal Hr Hg Hn Hm. unfold pool_put. cbn [pool].
   apply NoDup_app_iff in Hnd as (Hs & Hlp & Hd).
   apply NoDup_app_iff in Hlp as (Hl & Hp & Hd2).
   apply Forall_app in Hal as (Ha1 & Ha2). apply Forall_app in Ha2 as (Ha2 & Ha3).
-  destruct (Nat.ltb _ _); constructor; cbn [stack pool heap next mem]; auto.
+  destruct (Nat.ltb _ _); constructor; cbn [stack pool heap next mem stor]; auto.
   - apply NoDup_app_iff. repeat split; auto. intros x H1 H2. apply (Hd x H1). apply in_app_iff. right. exact H2.
   - apply Forall_app. split; assumption.
   - apply NoDup_app_iff. repeat split; auto.
@@ -123,12 +125,12 @@ Proof.
 Qed.
 
 (* the same without a put *)
-Lemma WF_mk gv h nx st pl m :
+Lemma WF_mk gv h nx st pl m sr :
   NoDup (st ++ pl) ->
   Forall (allocated gv nx) (st ++ pl) ->
   Forall (fun l => inrange (h l)) st ->
   globals_ok gv h -> (N.of_nat (length gv) <= nx)%N -> bytes_ok m ->
-  WF gv (mkCfg h nx st pl m).
+  WF gv (mkCfg h nx st pl m sr).
 Proof. intros. constructor; assumption. Qed.
 
 Lemma Forall_firstn {A} (P : A -> Prop) n : forall l, Forall P l -> Forall P (firstn n l).
